@@ -9,12 +9,12 @@ from vlib.shard import Acc
 PROP = "C01"
 META = {
     "level": "exploration",
-    "claim": "Held on the executed runs: generated one-sided, disjoint two-sided and same-path conflict histories (4-12 ops) over 5-8 provider flavours and 8 schedule shapes are driven through the real engine one loop iteration at a time; at quiescence both root trees must be equal modulo '.conflicted' names, quiescence must be reached within 3000 steps and no exception may escape a service step. Hazard-seeking histories (thorough) are attributed to listed findings by input predicate or reported.",
+    "claim": "Held on the executed runs: generated one-sided, disjoint two-sided and same-path conflict histories (4-12 ops) over 5-8 provider flavours and 8 schedule shapes are driven through the real engine one loop iteration at a time; at quiescence both root trees must be equal modulo '.conflicted' names, quiescence must be reached within 3000 steps and no exception may escape a service step. Hazard-seeking histories (1 500 quick, 60 000 thorough) are attributed to listed findings by input predicate or reported.",
     "note": 'Trusted: MockProvider as substrate, the tap wrappers, the tree snapshot through listdir/download. Not reached: histories longer than 12 ops, real network timing, schedules finer than one loop iteration, provider flavours outside the matrix.',
     "technique": 'runtime monitoring: convergence oracle over observed quiescent trees of generated histories x schedules',
-    "plan": {"quick": {"shards": 16, "timeout": 600, "cases": 12000},
+    "plan": {"quick": {"shards": 16, "timeout": 600, "cases": 12000, "seek": 1500},
              "thorough": {"shards": 32, "timeout": 3000, "cases": 240000, "seek": 60000}},
-    "rule": "case = (family ONE0/ONE1/DISJ/CONF [thorough: +SEEK1/SEEK2/CLASH hazard-seeking], flavour, schedule shape, "
+    "rule": "case = (family ONE0/ONE1/DISJ/CONF [+SEEK1/SEEK2/CLASH hazard-seeking, attributed by predicate], flavour, schedule shape, "
             "4-12 user ops) chosen round-robin over the product, details from PRNG(seed, index); executed on the real "
             "engine with one-loop-iteration steps; distinct = distinct signature (family, flavour, shape, ordered "
             "(side, op kind, depth) and step positions); non-trivial = the engine issued >= 1 provider write after the base tree",
